@@ -30,7 +30,15 @@ D    == 2 * W + 1      \* pair offsets 0..D
 (* ------------------------------ universe -------------------------------- *)
 HaysN(n) == UNION { { [i \in 1..n |-> IF i \in P THEN k[i] ELSE 0] : k \in [P -> 1..5] }
                     : P \in {Q \in SUBSET (1..n) : Cardinality(Q) <= MaxHits} }
-Cases == SetToSeq(UNION {HaysN(n) : n \in 0..NMax})
+\* SWAR borrow shapes for the pair scan (more non-filler cells than MaxHits allows): hit1 directly followed by its near miss
+\* (needle^1: the zero-byte trick marks it falsely), hit2 where the false marker is confirmed, and a real pair later in the same
+\* machine word - the scan must examine every marker of a word, not only the lowest
+BorrowCell(i, s, d, r) == IF i = s + 1 THEN 1 ELSE IF i = s + 2 THEN 4 ELSE IF i = s + 2 + d THEN 2
+                          ELSE IF i = s + r + 1 THEN 1 ELSE IF i = s + r + 1 + d THEN 2 ELSE 0
+Borrow == IF W < 4 THEN {}
+          ELSE {[i \in 1..n |-> BorrowCell(i, t[1], t[2], t[3])] :
+                  t \in {u \in (0..3) \X (1..3) \X (3..6) : u[1] + u[3] + 1 + u[2] <= NMax}, n \in {9, 11, NMax}}
+Cases == SetToSeq(UNION {HaysN(n) : n \in 0..NMax} \cup {h \in Borrow : \A t \in DOMAIN h : TRUE})
 Idx   == {i \in 1..Len(Cases) : i % NShards = Shard} \cup {0}
 
 (* palettes: byte value of <<filler, hit1, hit2, hit3, nearmiss1, nearmiss2>> *)
